@@ -1,6 +1,6 @@
 (** Property C08 — redeemers are attached to the item they were written for. *)
 From stdpp Require Import sorting.
-From Tx3 Require Import Base Tir Reduce PlutusData Compile Compile_proofs Compile_sorted.
+From Tx3 Require Import Base Tir Reduce PlutusData Compile Compile_proofs Compile_sorted Compile_redeemers.
 
 (** the list the spend index is taken from is a permutation of the body inputs ... *)
 Theorem C08_sorted_inputs_perm : forall l, sort_refs l ≡ₚ l.
@@ -28,8 +28,31 @@ Theorem C08_index_is_rank : forall x l k,
   StronglySorted ref_le l -> NoDup l -> position (fun y => bool_decide (y = x)) l = Some k -> k = rank x l.
 Proof. exact position_is_rank. Qed.
 
+(** mint and burn redeemers: the index written is the position of the block's own policy in the
+    key list of the body's mint field (its first and, the keys being distinct, only occurrence) *)
+Theorem C08_mint_redeemer_points_at_policy : forall ms minted rs,
+  mint_redeemers ms minted = Ok rs ->
+  forall r, r ∈ rs ->
+  exists m x xs p p' d k,
+    m ∈ ms /\ m_redeemer m <> ENone /\
+    expr_into_assets (m_amount m) = Ok (x :: xs) /\ expr_into_bytes (fst (fst x)) = Ok p /\ hash_from 28 p = Ok p' /\
+    nth_error (map fst (from_option id [] minted)) k = Some p' /\
+    (forall j y, (j < k)%nat -> nth_error (map fst (from_option id [] minted)) j = Some y -> y <> p') /\
+    encode_redeemer (m_redeemer m) = Ok d /\ r = mk_ared 1 (Z.of_nat k) d.
+Proof. exact mint_redeemers_point_at_policy. Qed.
+(** ... and a block whose policy has left the body (mint and burn cancelled) is refused rather
+    than given a neighbour's index *)
+Theorem C08_mint_redeemer_needs_policy : forall ms minted m x xs p p',
+  m ∈ ms -> m_redeemer m <> ENone ->
+  expr_into_assets (m_amount m) = Ok (x :: xs) -> expr_into_bytes (fst (fst x)) = Ok p -> hash_from 28 p = Ok p' ->
+  p' ∉ map fst (from_option id [] minted) ->
+  forall rs, mint_redeemers ms minted <> Ok rs.
+Proof. exact mint_redeemer_needs_policy. Qed.
+
 Print Assumptions C08_sorted_inputs_sorted.
 Print Assumptions C08_index_is_rank.
 Print Assumptions C08_sorted_inputs_perm.
 Print Assumptions C08_index_points_at_item.
 Print Assumptions C08_order_strict_total.
+Print Assumptions C08_mint_redeemer_points_at_policy.
+Print Assumptions C08_mint_redeemer_needs_policy.
